@@ -67,6 +67,10 @@ type Agg struct {
 	T      int    `json:"t"`   // time index of the selected point (first/last/min/max), -1 when not applicable
 	Rows   []PRow `json:"rows"`
 	WantOK bool   `json:"want_ok"`
+	// selector-with-aux statements: the aux value that came with the winning partial result, and the oracle's verdict
+	AuxSeen bool   `json:"aux_seen,omitempty"`
+	AuxGot  *int64 `json:"aux_got,omitempty"`
+	AuxOK   bool   `json:"aux_ok,omitempty"`
 }
 
 type Check struct {
@@ -87,15 +91,16 @@ type Check struct {
 	GroupHosts map[string][]string `json:"group_hosts,omitempty"`
 	// selector with an auxiliary field: `SELECT last(x), y`; the call's value is checked like every other, the aux
 	// value (y of the selected row) is compared and reported as an observation (AuxChecked / AuxFail)
-	HasAux     bool   `json:"has_aux,omitempty"`
-	AuxField   int    `json:"aux_field,omitempty"`
-	AuxChecked int    `json:"aux_checked,omitempty"`
-	AuxFail    string `json:"aux_fail,omitempty"`
-	PreAgg     bool   `json:"preagg"` // the shard classified the statement as eligible for the statistics shortcut
-	Compared   bool   `json:"compared"`
-	Skipped    string `json:"skipped,omitempty"`
-	Groups     []Agg  `json:"groups"`
-	Fail       string `json:"fail,omitempty"`
+	HasAux        bool     `json:"has_aux,omitempty"`
+	AuxField      int      `json:"aux_field,omitempty"`
+	AuxChecked    int      `json:"aux_checked,omitempty"`
+	AuxFail       string   `json:"aux_fail,omitempty"`
+	AuxFailGroups []string `json:"aux_fail_groups,omitempty"`
+	PreAgg        bool     `json:"preagg"` // the shard classified the statement as eligible for the statistics shortcut
+	Compared      bool     `json:"compared"`
+	Skipped       string   `json:"skipped,omitempty"`
+	Groups        []Agg    `json:"groups"`
+	Fail          string   `json:"fail,omitempty"`
 	// SigChunkTime: groups (hosts) for which some file holds a chunk of >= 2 segments that the range enters after its
 	// first row (first) / leaves before its last row (last) - where FirstLastReader may report the chunk's time
 	SigChunkTime []string `json:"sig_chunk_time,omitempty"`
@@ -1066,6 +1071,14 @@ func (h *History) query(sh *tsdrv.Shard, opi int, r *gen.Rand, files []tsdrv.Fil
 				continue // the call's own value is wrong: reported by the oracle above
 			}
 			c.AuxChecked++
+			for gi := range c.Groups {
+				if c.Groups[gi].Group == g && c.Groups[gi].Col == 0 {
+					c.Groups[gi].AuxSeen, c.Groups[gi].AuxGot, c.Groups[gi].AuxOK = true, w.aux, ok
+				}
+			}
+			if !ok {
+				c.AuxFailGroups = append(c.AuxFailGroups, g)
+			}
 			if !ok && c.AuxFail == "" {
 				got := "null"
 				if w.aux != nil {
